@@ -19,7 +19,7 @@ func TestSmoke(t *testing.T) {
 			{AtUs: 1000, Actor: 1, Kind: "publish", QoS: 2, Topic: "t", Token: "m1"},
 			{AtUs: 1010, Actor: 1, Kind: "subscribe", Subs: []SubReq{{"a", 1}}},
 		},
-		Faults: []Fault{{Kind: "cutAfter", Conn: 1, N: 1}, {Kind: "cutAfter", Conn: 2, N: 1}},
+		Faults:    []Fault{{Kind: "cutAfter", Conn: 1, N: 1}, {Kind: "cutAfter", Conn: 2, N: 1}},
 		HorizonUs: 50000, EndUs: 200000,
 	}
 	res := RunScenario(t, sc)
